@@ -191,6 +191,20 @@ def run(chk):
             po = observe(pfcp, plugin)
             if (po == "OOk") != (o == "OOk"):
                 fails.append({"kind": "verdict-depends-on-order", "tree": spec, "permuted": perm, "plugin": plugin, "observed": o, "permuted_observed": po})
+            if chk.rng.random() < 0.25 and (spec["structs"] or spec["enums"]):
+                # the tree as it grows: the same object verified once before its last type is added (as a schema under construction or
+                # a module being merged is), then again once it is complete: the verdict is that of the complete tree
+                gfcp = build(spec)
+                which = gfcp.enums if (spec["enums"] and (not spec["structs"] or chk.rng.random() < 0.5)) else gfcp.structs
+                last = which.pop()
+                observe(gfcp, plugin)
+                which.append(last)
+                go = observe(gfcp, plugin)
+                chk.hist("grown", go == o)
+                if go != o:
+                    fails.append({"kind": "verdict-depends-on-an-earlier-verification-of-the-same-object", "tree": spec, "plugin": plugin,
+                                  "verified_first_without": "the last enum" if which is gfcp.enums else "the last struct",
+                                  "observed_on_a_fresh_object": o, "observed_after_growing": go})
     chk.log(f"{len(cases)} verdicts; implementation-side failures: {len(fails)}")
     chk.coverage["traces_validated_against_impl"] = len(cases)
     mism = []
